@@ -382,10 +382,10 @@ impl Check for C07 {
             for with_v in [false, true] {
                 for a in kinds {
                     for b in kinds {
-                        out.push(Def { ks: vec![a, b], w, with_v, len: tier.pick(4, 5) });
+                        out.push(Def { ks: vec![a, b], w, with_v, len: tier.pick(5, 6) });
                         if !with_v {
                             for c in kinds {
-                                out.push(Def { ks: vec![a, b, c], w, with_v, len: tier.pick(3, 4) });
+                                out.push(Def { ks: vec![a, b, c], w, with_v, len: tier.pick(4, 5) });
                             }
                         }
                     }
@@ -439,7 +439,7 @@ impl Check for C07 {
         "definitions = construct!([a1..an]) for every ordered tuple of n=2,3 (thorough: also 4) alternatives from {req_flag, argument, switch, argument with fallback, group of two arguments, group flag+argument, command}, the choice bare / optional / many / some, with and without a neighbouring switch; every vector of the token tree over the alternatives' names, two values, command names; reference model: T = alternatives whose names occur; |T|=0 -> first alternative accepting the empty line, |T|=1 -> that alternative's grammar, |T|>=2 -> failure; many/some over single-item alternatives -> list in command-line order; state = (definition, vector); non-trivial = judged vector containing at least one alternative's item".into()
     }
     fn bounds(&self, tier: Tier) -> Value {
-        json!({"alternatives": tier.pick("2..3", "2..4"), "vector_length": tier.pick("4 (n=2), 3 (n=3)", "5 (n=2), 4 (n=3,4)")})
+        json!({"alternatives": tier.pick("2..3", "2..4"), "vector_length": tier.pick("5 (n=2), 4 (n=3)", "6 (n=2), 5 (n=3), 4 (n=4)")})
     }
     fn assumptions(&self) -> Vec<String> {
         vec!["unspecified (executed, not judged): many/some over multi-item alternatives, enclosing-level switch right of a command name, attached short values".into()]
